@@ -2,8 +2,12 @@
 // concatenation arms (Str+Str, List+List) of eval::apply_binary_operation (C11: sequence laws
 // for range reads and concatenation). Child module of `eval` (src/eval/mod.rs).
 //
-// All units here are BOUNDED in the sequence length (stated per harness); bytes, Int payloads
-// and the two optional bounds (full usize domain, present or omitted) are symbolic.
+// All units here are BOUNDED in the sequence length (stated per harness).
+//  * string range reads: bytes and BOTH optional bounds (present or omitted, full usize domain)
+//    are symbolic;
+//  * list range reads: Int payloads symbolic, the bounds are concrete per cell (omitted or
+//    0 ..= len+1, all combinations) -- see list_range_cell for the measurement behind this;
+//  * concatenation: strings of length <= 2 each; lists only in the empty cells (see below).
 use super::*;
 
 pub fn fmt_stub(_args: core::fmt::Arguments<'_>) -> String {
